@@ -5,6 +5,7 @@
 #include "fp.hpp"
 #include "optable.hpp"
 #include <dlfcn.h>
+#include <xmmintrin.h>
 #include <map>
 #include <string>
 #include <utility>
@@ -217,8 +218,33 @@ static void prop_op(pbt::Ctx& c, int idx) {
 		}
 		if (extreme) { c.cls("lowp-extreme-magnitude(not-compared)"); return; }
 	}
+	// every operation is a pure function of its arguments: one case in eight evaluates f(in), f(other inputs), f(in) in every library and
+	// requires the first and third results to be bit-identical (hidden state carried from one call to the next; the two-call history is
+	// part of the case, so it replays from the choice list)
+	if (c.draw(8) == 0) {
+		Slot in2[160], o1[64], o2[64], o3[64];
+		memset(in2, 0, sizeof in2);
+		gen_inputs(c, op, in2);
+		c.cls("two-call history");
+		for (size_t li = 0; li <= op.others.size(); ++li) {
+			const OpInfo* oi = li == 0 ? op.base : op.others[li - 1].second;
+			const std::string& ln = li == 0 ? g_libs[0].name : g_libs[op.others[li - 1].first].name;
+			memset(o1, 0, sizeof o1); memset(o2, 0, sizeof o2); memset(o3, 0, sizeof o3);
+			oi->fn(in, o1); oi->fn(in2, o2); oi->fn(in, o3);
+			bool same = true; int pos = 0;
+			for (const Arg& a : op.outs) for (int i = 0; i < slots_of(a); ++i, ++pos) {
+				if (o1[pos].ul == o3[pos].ul) continue;
+				if (a.type == 'f' && fp::is_nan(o1[pos].f) && fp::is_nan(o3[pos].f)) continue;
+				if (a.type == 'd' && fp::is_nan(o1[pos].d) && fp::is_nan(o3[pos].d)) continue;
+				same = false;
+			}
+			if (!same) c.failk(ln + "/depends-on-previous-call", "%s in %s: f(x) = %s, then f(%s), then f(x) = %s", op.name.c_str(), ln.c_str(), fmt_slots(op.outs, o1).c_str(), fmt_slots(op.args, in2).c_str(), fmt_slots(op.outs, o3).c_str());
+		}
+	}
 	memset(ref, 0, sizeof ref);
+	const unsigned csr0 = _mm_getcsr() & ~0x3fu;  // control part of MXCSR (rounding mode, FTZ, DAZ, exception masks); bits 0-5 are sticky flags
 	op.base->fn(in, ref);
+	if ((_mm_getcsr() & ~0x3fu) != csr0) { unsigned now = _mm_getcsr() & ~0x3fu; _mm_setcsr(csr0); c.failk(g_libs[0].name + "/mxcsr-changed", "%s in %s changed the MXCSR control bits from 0x%04x to 0x%04x: every later floating-point operation of the thread is affected", op.name.c_str(), g_libs[0].name.c_str(), csr0, now); }
 	long double scale = 0; bool has_scale = op.base->scale != nullptr;
 	if (has_scale) scale = op.base->scale(in);
 	if (c.verbose) c.logf("%s=%s", g_libs[0].name.c_str(), fmt_slots(op.outs, ref).c_str());
@@ -226,6 +252,7 @@ static void prop_op(pbt::Ctx& c, int idx) {
 		const Lib& lib = g_libs[ot.first];
 		memset(out, 0, sizeof out);
 		ot.second->fn(in, out);
+		if ((_mm_getcsr() & ~0x3fu) != csr0) { unsigned now = _mm_getcsr() & ~0x3fu; _mm_setcsr(csr0); c.failk(lib.name + "/mxcsr-changed", "%s in %s changed the MXCSR control bits from 0x%04x to 0x%04x: every later floating-point operation of the thread is affected", op.name.c_str(), lib.name.c_str(), csr0, now); }
 		char cls = g_bits_mode ? (op.zero_sign_free ? 'V' : 'B') : (op.lowp ? op.base->cls_lowp : op.base->cls);
 		int pos = 0; const char* why = nullptr; int badpos = -1; double worst = 0;
 		for (const Arg& a : op.outs) for (int i = 0; i < a.n; ++i, ++pos) {
@@ -291,7 +318,7 @@ int main(int argc, char** argv) {
 		for (int i = 0; i < n; ++i) L.ops[inf(i)->name] = inf(i);
 		L.simd = simd ? simd() : 0; L.aligned = al ? al() : 0;
 		fprintf(stderr, "[lib] %-28s ops=%d GLM_CONFIG_SIMD=%u aligned=%u\n", L.name.c_str(), n, L.simd, L.aligned);
-		if (const char* need = getenv("OPS_REQUIRE_SIMD")) if (g_libs.size() >= 1 && !strcmp(need, "1") && !L.simd) { fprintf(stderr, "library %s was expected to be a SIMD build but GLM_CONFIG_SIMD is off\n", L.name.c_str()); return 2; }
+		if (const char* need = getenv("OPS_REQUIRE_SIMD")) if (g_libs.size() >= 1 && !strcmp(need, "1") && !L.simd && L.name.compare(0, 4, "pure") != 0 /* a second pure library (pure-wxyz) is a legitimate comparand */) { fprintf(stderr, "library %s was expected to be a SIMD build but GLM_CONFIG_SIMD is off\n", L.name.c_str()); return 2; }
 		g_libs.push_back(L);
 	}
 	if (g_libs.size() < 2) { fprintf(stderr, "need at least two libraries\n"); return 2; }
